@@ -31,7 +31,8 @@ ASSUMPTIONS = ["bin edges are taken from the library's configuration (C15 checks
 
 @st.composite
 def case_strategy(draw):
-    b = draw(gen.binning_params(max_bins=5))
+    many = draw(st.integers(0, 7)) == 0  # occasionally hundreds of bins
+    b = draw(gen.binning_params(max_bins=5, many_bins=many))
     cosmology = draw(st.sampled_from(["Planck15", "WMAP9"]))
     edges = gen.binning_edges_reference(b, cosmology).tolist()
     K = draw(st.integers(1, 3))
